@@ -218,8 +218,10 @@ class NslParser:
         """unary_expression : PLUSPLUS ID
         | MINUSMINUS ID"""
 
+        # The location is the one of the identifier, not of the operator
+        location = self.__GetLocation(p, 2)
         p[2] = ast.PrimaryExpression(p[2])
-        p[2].SetLocation(self.__GetLocation(p, 1))
+        p[2].SetLocation(location)
         if p[1] == "++":
             p[0] = ast.AffixExpression(op.Operation.ADD, p[2], ast.Affix.PRE)
         elif p[1] == "--":
@@ -229,8 +231,10 @@ class NslParser:
         """unary_expression : ID PLUSPLUS
         | ID MINUSMINUS"""
 
+        # The location is the one of the identifier, not of the operator
+        location = self.__GetLocation(p, 1)
         p[1] = ast.PrimaryExpression(p[1])
-        p[1].SetLocation(self.__GetLocation(p, 2))
+        p[1].SetLocation(location)
         if p[2] == "++":
             p[0] = ast.AffixExpression(op.Operation.ADD, p[1], ast.Affix.POST)
         elif p[2] == "--":
